@@ -323,8 +323,9 @@ def make_len_packet(packeting):
             self.payload = bytes(payload) if payload is not None else None
 
         def pack(self):
-            if self.payload is not None:
-                if len(self.payload) > 255:
+            if self.payload is not None and not getattr(self, "_built", False):   # built once, like a packet whose parts are
+                self._built = True                                                # packed when it is made; pack() again
+                if len(self.payload) > 255:                                       # returns .packed as it is
                     raise ValueError("Build Packet: payload too long")
                 self.packed = bytearray([len(self.payload)]) + bytearray(self.payload)
             return self.packed
@@ -373,18 +374,20 @@ class deadline(object):
         import signal
         import threading
         if threading.current_thread() is threading.main_thread():
-            self.old = signal.signal(signal.SIGALRM, self._fire)
-            signal.setitimer(signal.ITIMER_REAL, self.seconds, 1.0)
+            # CPU time of this process, not wall-clock time: an endless loop burns CPU, while a starved process on a
+            # loaded machine does not (a wall-clock deadline fired spuriously at load > 100)
+            self.old = signal.signal(signal.SIGPROF, self._fire)
+            signal.setitimer(signal.ITIMER_PROF, self.seconds, 1.0)
             self.armed = True
         return self
 
     def __exit__(self, etype, evalue, tb):
         if self.armed:
             import signal
-            signal.setitimer(signal.ITIMER_REAL, 0)
-            signal.signal(signal.SIGALRM, self.old)
+            signal.setitimer(signal.ITIMER_PROF, 0)
+            signal.signal(signal.SIGPROF, self.old)
         if etype is not None and issubclass(etype, _Alarm):
-            raise StepTimeout("no return within %ss (interrupted in %s)" % (self.seconds, getattr(self, "at", "?")))
+            raise StepTimeout("no return within %ss of CPU time (interrupted in %s)" % (self.seconds, getattr(self, "at", "?")))
         return False
 
 
